@@ -4107,6 +4107,145 @@ def k_bubble(E, tier):
     return rec
 
 
+def k_loop_scopes(E, tier):
+    """C16 (loop variables are local to their block): in handle_item the @for arm binds the loop variable in
+    a sub-scope of the enclosing scope (never in the enclosing scope itself) and runs the body in that
+    sub-scope; the @while arm runs condition and body in one sub-scope; the @each arm, which binds its
+    variables in the current scope, saves the previous values first and restores them after the loop on
+    every path that completes (so the variables do not leak)."""
+    items = E.load_enum("sass/item.rs", "Item", "sass::item::Item")
+    f = E.find(name="handle_item")
+    rec = Rec("handle_item (@for / @each / @while arms: scopes of loop variables)", f, E)
+    for arm in ("For", "Each", "While"):
+        ctx = E.ctx()
+        item = sym.Opaque("sass::item::Item", "item", ctx)
+        ctx.assumptions.append("(= %s %s)" % (item.discriminant().term, bvlit(items.index(arm), 64)))
+        outer = sym.Opaque("ScopeRef", "outer-scope", ctx)
+        subs = []
+
+        def full(ex, st, x):
+            while isinstance(x, sym.Ref):
+                x = ex.deref(st, x)
+            return x
+
+        def m_sub(ex, st, c, a, d, subs=subs, ctx=ctx):
+            o = sym.Opaque("ScopeRef", "sub-scope%d" % len(subs), ctx)
+            subs.append(o)
+            e = sym.Event("sub", a, o, len(st.pc))
+            e.rargs = [full(ex, st, x) for x in a]
+            st.events.append(e)
+            return o
+
+        def fork(name, okv=None):
+            def m(ex, st, c, a, d, ctx=ctx):
+                ok, err = st.fork(), st.fork()
+                e = sym.Event(name, a, None, len(st.pc))
+                e.rargs = [full(ex, st, x) for x in a]
+                ok.events.append(e)
+                v = okv(ctx) if okv else sym.Unit()
+                e.result = v
+                return [(ok, sym.Agg(d, "Ok", {"0": v}, 0)), (err, sym.Agg(d, "Err", {"0": sym.Opaque("Error", name + "-error", ctx)}, 1))]
+            return m
+
+        def ev(name, ret=None):
+            def m(ex, st, c, a, d, ctx=ctx):
+                o = ret(ctx) if ret else ctx.fresh_value(d or "()", "ret." + name)
+                e = sym.Event(name, a, o, len(st.pc))
+                e.rargs = [full(ex, st, x) for x in a]
+                st.events.append(e)
+                return o
+            return m
+
+        def m_next(ex, st, c, a, d, ctx=ctx):
+            n = sum(1 for e in st.events if e.callee == "iter-some")
+            if n >= 3:
+                st.events.append(sym.Event("cut", [], None, len(st.pc)))
+                return sym.Agg(d, "None", {}, 0)
+            some, none = st.fork(), st.fork()
+            some.events.append(sym.Event("iter-some", [], None, len(st.pc)))
+            none.events.append(sym.Event("iter-none", [], None, len(st.pc)))
+            return [(some, sym.Agg(d, "Some", {"0": sym.Opaque("css::value::Value", "loop-value%d" % n, ctx)}, 1)), (none, sym.Agg(d, "None", {}, 0))]
+
+        truth = []
+
+        def m_is_true(ex, st, c, a, d, ctx=ctx):
+            n = sum(1 for e in st.events if e.callee == "cond")
+            if n >= 2:
+                st.events.append(sym.Event("cond", [], None, len(st.pc)))
+                return sym.mk_bool("false")
+            b = ctx.fresh_scalar("bool", "cond")
+            st.events.append(sym.Event("cond", a, b, len(st.pc)))
+            return b
+
+        models = [
+            (r"^ScopeRef::sub$", m_sub), (r"^<(ScopeRef|Name|css::value::Value) as Clone>::clone$", lambda ex, st, c, a, d: full(ex, st, a[0])),
+            (r"^<Vec<Name> as Deref>::deref$", lambda ex, st, c, a, d: sym.Ref("val", full(ex, st, a[0]))),
+            (r"^<ScopeRef as Deref>::deref$", lambda ex, st, c, a, d: sym.Ref("val", full(ex, st, a[0]))),
+            (r"^SrcRange::evaluate$", fork("range", lambda ctx: sym.Opaque("ValueRange", "range", ctx))), (r"^check_body$", fork("check_body")),
+            (r"^<ValueRange as IntoIterator>::into_iter$", lambda ex, st, c, a, d: a[0]), (r"^<ValueRange as Iterator>::next$", m_next),
+            (r"^variablescope::Scope::define$", fork("define")), (r"^variablescope::Scope::define_multi$", fork("define_multi")),
+            (r"^handle_body::<", fork("handle_body")),
+            (r"^variablescope::Scope::store_local_values$", ev("store", lambda ctx: sym.Opaque("Vec", "saved-values", ctx))),
+            (r"^variablescope::Scope::restore_local_values$", ev("restore", lambda ctx: sym.Unit())),
+            (r"^sass::value::Value::evaluate$", fork("evaluate", lambda ctx: sym.Opaque("css::value::Value", "evaluated", ctx))),
+            (r"^css::value::Value::iter_items$", ev("iter_items", lambda ctx: sym.Opaque("Vec<css::value::Value>", "items", ctx))),
+            (r"^<Vec<css::value::Value> as IntoIterator>::into_iter$", lambda ex, st, c, a, d: a[0]),
+            (r"^<std::vec::IntoIter<css::value::Value> as Iterator>::next$", m_next),
+            (r"^css::value::Value::is_true$", m_is_true),
+        ] + BASE_MODELS
+        ex = sym.Executor(ctx, models=models, unroll=5, feasibility=E.feasibility(ctx), max_paths=6000)
+        paths = [p for p in ex.run(f, [sym.Ref("val", item), sym.Opaque("&mut dyn CssDestination", "dest", ctx), outer, sym.Opaque("&mut Context", "fctx", ctx)]) if p.status == "return"]
+        rec.paths += len(paths)
+        okp = [p for p in paths if isinstance(p.ret, sym.Agg) and p.ret.variant == "Ok" and not any(e.callee == "cut" for e in p.events)]
+        if not okp:
+            rec.add("@%s arm: a completing path exists (shape not recognised)" % arm.lower(), {"verdict": "inconclusive", "per_solver": {}, "time_s": 0})
+            continue
+        bad, n_iter = [], 0
+        for i, p in enumerate(okp):
+            evs = p.events
+            bodies = [e for e in evs if e.callee == "handle_body"]
+            n_iter = max(n_iter, len(bodies))
+            subs_here = [e for e in evs if e.callee == "sub"]
+            if arm == "For":
+                defs = [e for e in evs if e.callee == "define"]
+                if len(defs) != len(bodies):
+                    bad.append("path %d: one binding per iteration" % i)
+                for d_, b_ in zip(defs, bodies):
+                    sc = d_.rargs[0]
+                    is_sub = any(sc is s_.result and s_.rargs[0] is outer for s_ in subs_here)
+                    if not is_sub or sc is outer:
+                        bad.append("path %d: the loop variable is bound in a sub-scope of the enclosing scope" % i)
+                    if not any(x is sc for x in b_.rargs):
+                        bad.append("path %d: the body runs in the scope that holds the loop variable" % i)
+                    if d_.rargs[1] is not item.children.get("For.0"):
+                        bad.append("path %d: the variable bound is the loop variable" % i)
+            elif arm == "While":
+                if bodies:
+                    ok = len(subs_here) >= 1 and subs_here[0].rargs[0] is outer and all(any(x is subs_here[0].result for x in b_.rargs) for b_ in bodies)
+                    ev_sc = [e for e in evs if e.callee == "evaluate"]
+                    ok = ok and all(any(x is subs_here[0].result for x in e.rargs) for e in ev_sc)
+                    if not ok:
+                        bad.append("path %d: condition and body use one sub-scope of the enclosing scope" % i)
+            else:
+                st_ = [e for e in evs if e.callee == "store"]
+                rs_ = [e for e in evs if e.callee == "restore"]
+                dm = [e for e in evs if e.callee == "define_multi"]
+                ok = (len(st_) == 1 and len(rs_) == 1 and st_[0].rargs[0] is outer and rs_[0].rargs[0] is outer and rs_[0].rargs[1] is st_[0].result
+                      and st_[0].rargs[1] is item.children.get("Each.0") and evs.index(st_[0]) < min([evs.index(e) for e in dm] + [len(evs)])
+                      and evs.index(rs_[0]) > max([evs.index(e) for e in dm + bodies] + [-1])
+                      and all(e.rargs[0] is outer and e.rargs[1] is item.children.get("Each.0") for e in dm) and len(dm) == len(bodies))
+                if not ok:
+                    bad.append("path %d: previous values saved before the first binding and restored, from that very save, after the last iteration" % i)
+        what = {"For": "the loop variable is bound in a sub-scope of the enclosing scope (a fresh one or one per loop) and the body runs in that scope",
+                "While": "condition and body run in one sub-scope of the enclosing scope",
+                "Each": "the variables are bound in the current scope between a save of their previous values and the restore of exactly that save"}[arm]
+        rec.add("@%s arm (%d completing paths, up to %d iterations): %s" % (arm.lower(), len(okp), n_iter, what),
+                {"verdict": "holds" if not bad else "violated", "per_solver": {"structural": "; ".join(bad[:3]) or "event identity"}, "time_s": 0})
+        if n_iter < 2:
+            rec.add("@%s arm: two iterations were explored" % arm.lower(), {"verdict": "inconclusive", "per_solver": {}, "time_s": 0})
+    return rec
+
+
 def k_value_eq_symmetric(E, tier):
     """C12: css::Value::eq is symmetric as a function of the two values' kinds and of the (symmetric)
     comparisons of their parts: eq(a,b) and eq(b,a) are executed symbolically and must be the same
